@@ -54,6 +54,8 @@ func validateUnionCases(env *Environment, errorSink *validation.ErrorSink) *Envi
 	}
 
 	tagTypeMap := make(map[string]Type)
+	// a union written as a type argument is visited directly and through the instantiated definition
+	nestedUnionsReported := make(map[string]bool)
 
 	VisitWithContext(env, false, func(self VisitorWithContext[bool], node Node, visitingReference bool) {
 		switch t := node.(type) {
@@ -78,7 +80,10 @@ func validateUnionCases(env *Environment, errorSink *validation.ErrorSink) *Envi
 				for _, typeCase := range cases {
 					// a vector, array or map whose items are a union is not itself a union
 					if childType, ok := typeCase.Type.(*GeneralizedType); ok && len(childType.Cases) > 1 && childType.Dimensionality == nil {
-						errorSink.Add(validationError(typeCase, "unions may not immediately contain other unions"))
+						if where := typeCase.GetNodeMeta().String(); !nestedUnionsReported[where] {
+							nestedUnionsReported[where] = true
+							errorSink.Add(validationError(typeCase, "unions may not immediately contain other unions"))
+						}
 					}
 				}
 
@@ -207,6 +212,8 @@ func validateUnionCases(env *Environment, errorSink *validation.ErrorSink) *Envi
 			self.VisitChildren(node, visitingReference)
 
 		case *SimpleType:
+			// type arguments written inline are types in their own right
+			self.VisitChildren(node, visitingReference)
 			if len(t.ResolvedDefinition.GetDefinitionMeta().TypeArguments) > 0 {
 				// Check the referenced type with the type arguments provided
 				self.Visit(t.ResolvedDefinition, true)
